@@ -128,8 +128,9 @@ theorem C05_member_quorum_met {σ ρ : Type} (numMembers mcq : Int) (cq : ρ) (h
 theorem facts_tie :
     Facts.serve_resp_precond_guards_handler = true ∧ Facts.serve_resp_bypass_only_update_routing = true ∧
     Facts.is_operable_checks_member_quorum = true ∧ Facts.newdmap_checks_member_quorum_first = true ∧
-    Facts.sync_put_aborts_on_backup_error = false ∧ Facts.sync_put_backups_before_local = true :=
-  ⟨rfl, rfl, rfl, rfl, rfl, rfl⟩
+    Facts.sync_put_aborts_on_backup_error = false ∧ Facts.sync_put_backups_before_local = true ∧
+    Facts.precondition_set_before_handlers_are_registered = true :=
+  ⟨rfl, rfl, rfl, rfl, rfl, rfl, rfl⟩
 
 /-! Non-vacuity: R = 3, W = 2, one backup unreachable — acknowledged; both unreachable — write quorum -/
 example : (replicate { R := 3, W := 2 } ⟨[2], [0, 1]⟩ (fun m => m != 0) Cluster.empty [100] [107] ⟨[1], 0, 5⟩).2 = .ok := by decide
